@@ -234,6 +234,9 @@ var edgeInts = func() []int64 {
 		out = append(out, b, b-1, b+1, -b, -b-1, -b+1)
 	}
 	out = append(out, math.MaxInt32, math.MinInt32, math.MaxInt32+1, math.MinInt32-1, math.MaxInt16, math.MinInt16, math.MaxInt16+1, math.MinInt16-1)
+	// numbers that read as addresses inside the Go heap (linux/amd64: from 0xc000000000): a
+	// number is a number wherever it is kept
+	out = append(out, 0xc000000000, 0xc000e00000, 0xc001e00008, 0xc003e00000, 0xc002a00010, 0xc0007fe000)
 	return out
 }()
 
@@ -268,6 +271,7 @@ var edgeF64 = []uint64{
 	0x7ff8000000000000, 0x7ff0000000000001, 0xfff8000000000123, // NaNs
 	1, 0x000fffffffffffff, 0x0010000000000000, // subnormals, min normal
 	0x7fefffffffffffff, 0x3ff0000000000000, 0xbff0000000000000, 0x3fb999999999999a,
+	0x000000c000e00000, 0x000000c003e00000, // doubles whose bits read as heap addresses
 }
 
 var edgeF32 = []uint32{
